@@ -181,6 +181,9 @@ class ProcessTasks(Filter[Iterable[Task], Iterable[Any]]):
 
             except Exception as e:
                 CobaContext.logger.log(e)
+                #what the failed evaluation's learner reported just before the exception is still waiting to be put into a
+                #result row. If we leave it there it ends up in the rows (or the logged interactions) of a later evaluation.
+                CobaContext.learning_info.clear()
 
     def _env_ids(self, item: Task):
         return (item.env_id if item.env else -1,)
